@@ -1,6 +1,8 @@
 package main
 
 import (
+	"strings"
+	"bytes"
 	"io/ioutil"
 	"encoding/json"
 	"fmt"
@@ -8,6 +10,7 @@ import (
 	"strconv"
 
 	"github.com/tyler-sommer/stick"
+	"github.com/tyler-sommer/stick/twig"
 )
 
 // guard runs f and reports a panic as a string instead of letting it escape: the three coercions and the
@@ -215,6 +218,21 @@ func init() {
 			obs["ismap"] = stick.IsMap(v)
 		}); p != "" {
 			obs["is_panic"] = p
+		}
+		// the Twig environment's length filter and "in" operator agree with the traversal as well
+		if p := guard(func() {
+			var buf bytes.Buffer
+			env := twig.New(&stick.MemoryLoader{Templates: map[string]string{"t.txt": "{{ v|length }}|{% for e in v %}{{ e in v ? 1 : 0 }}{% endfor %}"}})
+			if err := env.Execute("t.txt", &buf, map[string]stick.Value{"v": v}); err == nil {
+				parts := strings.SplitN(buf.String(), "|", 2)
+				if n, err := strconv.Atoi(parts[0]); err == nil && len(parts) == 2 {
+					obs["twiglen"] = n
+					obs["twigin"] = !strings.Contains(parts[1], "0")
+					obs["twig"] = "ran"
+				}
+			}
+		}); p != "" {
+			obs["twig"] = "panic"
 		}
 		// containment agrees with the traversal: every visited element is contained
 		allIn := true
